@@ -293,6 +293,38 @@ def styledLine (cw : Nat → Nat) (W : Nat) (l : SLine) (x : Nat) (w : Option Na
     | none => W - x
   (styledLineAux cw x w l.spans 0, w)
 
+
+/-! ### text handed to the row code by `writeString` -/
+
+/-- `replaceInvalidUTF8`: U+FFFD for every byte that is not part of a valid UTF-8 character
+    (a valid text is returned as it is: decoding and encoding a valid character is the identity) -/
+def replaceInvalidAux : Nat → Bytes → Bytes
+  | 0, _ => []
+  | _+1, [] => []
+  | fuel+1, b :: rest =>
+    let (r, size) := decodeRune (b :: rest)
+    encodeRune r ++ replaceInvalidAux fuel ((b :: rest).drop (max size 1))
+
+def replaceInvalidUTF8 (text : Bytes) : Bytes := replaceInvalidAux text.length text
+
+/-- the loop of `splitRunToFit`: `(cut, headWidth, total)` -/
+def splitRunAux (cw : Nat → Nat) (limit : Nat) : Nat → Bytes → Nat → Nat → Nat → Nat → Nat × Nat × Nat
+  | 0, _, _, cut, hw, total => (cut, hw, total)
+  | fuel+1, rest, idx, cut, hw, total =>
+    match stepRune cw rest with
+    | none => (cut, hw, total)
+    | some (c, w) =>
+      let take := decide (cut = idx) && (decide (idx = 0) || decide (w = 0) || decide (hw + w ≤ limit))
+      splitRunAux cw limit fuel (rest.drop c) (idx + c) (if take then idx + c else cut)
+        (if take then hw + w else hw) (total + w)
+
+/-- `splitRunToFit(text, limit, TextReadModeRune)`: a run of several characters cut into a head of
+    at most `limit` cells (at least one character) and the rest; `none` for a single character -/
+def splitRunToFit (cw : Nat → Nat) (text : Bytes) (limit : Nat) : Option (Bytes × Nat × Bytes × Nat) :=
+  let (cut, hw, total) := splitRunAux cw limit text.length text 0 0 0 0
+  if cut = 0 ∨ cut ≥ text.length then none
+  else some (text.take cut, max hw 1, text.drop cut, max (total - hw) 1)
+
 /-! ### abstraction to cells -/
 
 /-- the cells of a stored text in style `st` -/
